@@ -63,7 +63,7 @@ pub fn driver_tiny() -> Driver {
         base: tiny_base(),
         alphabet: alphabet.iter().map(|s| s.to_string()).collect(),
         probes: probes.iter().map(|s| s.to_string()).collect(),
-        failing: ["1/0", "let = )", "nonexistent_name", "let u = 1/0", "dimension D\nlet q0 = 1/0", "fn f(x) = x\nlet q1 = 1/0", "let S = 1/0", "use ma\nlet q2 = 1/0", "let c: Length = 1", "unit xs\nlet q3 = 1/0", "unit a: D2"].iter().map(|s| s.to_string()).collect(),
+        failing: ["1/0", "let = )", "nonexistent_name", "let u = 1/0", "dimension D\nlet q0 = 1/0", "fn f(x) = x\nlet q1 = 1/0", "let S = 1/0", "use ma\nlet q2 = 1/0", "let c: Length = 1", "unit xs\nlet q3 = 1/0", "unit a: D2", "use ma\nuse nonexistent", "use mb\nlet = )", "use mc\nlet meter = 1"].iter().map(|s| s.to_string()).collect(),
     }
 }
 
@@ -95,7 +95,7 @@ pub fn driver_prelude() -> Driver {
         base: prelude_ctx(),
         alphabet: alphabet.iter().map(|s| s.to_string()).collect(),
         probes: probes.iter().map(|s| s.to_string()).collect(),
-        failing: ["1/0", "1 m + 1 s", "let smoot2 = 1/0", "fn f(x) = x\nerror(\"stop\")", "unit gg\nlet q4 = 1/0", "let xs: Time = 1 m"].iter().map(|s| s.to_string()).collect(),
+        failing: ["1/0", "1 m + 1 s", "let smoot2 = 1/0", "fn f(x) = x\nerror(\"stop\")", "unit gg\nlet q4 = 1/0", "let xs: Time = 1 m", "use extra::algebra\nuse nonexistent::module", "use extra::algebra\nlet = )"].iter().map(|s| s.to_string()).collect(),
     }
 }
 
